@@ -49,7 +49,7 @@ func TraceFile(path string) int {
 			if rr.Doc == nil {
 				continue
 			}
-			fmt.Printf("   %s[%s] cp=%s garbage=%d %s\n", rr.Name, rr.Doc.Status(), rr.Doc.Checkpoint().String(), rr.Doc.GarbageLen(), rr.Doc.Marshal())
+			fmt.Printf("   %s[%s] cp=%s garbage=%d %s\n", rr.Name, fmt.Sprint(rr.Doc.Status()), rr.Doc.Checkpoint().String(), rr.Doc.GarbageLen(), rr.Doc.Marshal())
 			for k, el := range rr.Doc.RootObject().Members() {
 				switch v := el.(type) {
 				case *crdt.Array:
